@@ -1,4 +1,5 @@
 import RsslVerif.Model.Targets
+import RsslVerif.Model.SimplifyCbuffers
 import RsslVerif.Driver.Util
 /-! Line-protocol front end of the C18 models (define list, compact macro model, reflected bindings, stage reports). -/
 namespace RsslVerif.Driver.C18
@@ -212,8 +213,46 @@ def handleCross (decls pipes verdicts : String) : String :=
       | none => "?")
   | _, _ => "bad-request"
 
+/-! ### C18.simplify: the program encoding of harness/src/c17/wgen.rs, resource items only -/
+
+open RsslVerif.Model.SimplifyCbuffers in
+/-- `R <name> <kind> <len|-> <group|-> <flags|-> ..` -> the root definition it declares -/
+def parseRoot (item : String) : Option (Option Root) :=
+  match (item.splitOn " ").filter (· ≠ "") with
+  | "R" :: name :: kind :: len :: _ :: flags :: _ =>
+    if kind == "cbuffer" then
+      let n := if len == "-" then some 1 else len.toNat?
+      n.map fun n => some (.cbuffer name ((List.range n).map fun i => name ++ "_v" ++ toString i))
+    else
+      let k := if kind == "TrapBuffer" then "StructuredBuffer" else kind
+      let arr : Option Arr := if len == "-" then some .single else if len == "0" then some .unsized else len.toNat?.map .sized
+      match ObjKind.ofName? k, arr with
+      | some ok, some a => some (some (.global name (.object ok a (flags.toList.contains 's'))))
+      | _, _ => none
+  | _ => some none
+
+open RsslVerif.Model.SimplifyCbuffers in
+def showRoot' : Root' → Option String
+  | .struct n ms => some ("struct:" ++ n ++ ":" ++ toString ms.length)
+  | .global n g fromCb =>
+    let kind := match g with
+      | .object .ConstantBuffer _ _ => "ConstantBuffer"
+      | .object _ _ _ => "obj"
+      | .plain _ => "plain"
+    let slot := fromCb || hasSlot (paramsFor .Msl false) g.toShape
+    some ("global:" ++ n ++ ":" ++ kind ++ ":" ++ (if slot then "slot" else "noslot"))
+  | .other => none
+
+open RsslVerif.Model.SimplifyCbuffers in
+def handleSimplify (prog : String) : String :=
+  if prog.isEmpty then "" else
+  match sequenceOpt ((prog.splitOn " | ").map parseRoot) with
+  | none => "unsupported"
+  | some roots => ";".intercalate ((simplify (roots.filterMap id)).filterMap showRoot')
+
 def handle (op : String) (args : List String) : String :=
   match op, args with
+  | "C18.simplify", [prog] => handleSimplify prog
   | "C18.defines", [tgt] =>
     match parseTarget tgt with
     | some (t, _) => ";".intercalate ((targetDefines t).map fun d => d.1 ++ "=" ++ d.2)
